@@ -6,6 +6,14 @@ NOTE = ("bounded scope only (declared lattices/catalogues/depths); exact Fractio
 TECH = "exhaustive small-scope enumeration of the real implementation against an exact reference model (explicit-state explorer written for this task)"
 
 CHECKS = {
+    "C12": ("Explicit-state exploration over a shared pool (two single objects per kind - int dtype and float with a non-normalised "
+            "representative - and a collection per kind; 17 kinds) with about 700 actions (every catalogue operation on every choice of pool "
+            "operands): the state is a byte-level snapshot of every array reachable from every pool object, the constants I, J, infty, "
+            "infty_plane, absolute_conic, the cached epsilon / delta arrays and the mutable default arguments. Closure: every action leads back "
+            "to the initial state (so every finite sequence does); premise checked differentially: after each action and along the growing "
+            "history every query sharing an operand answers as on a fresh pool; derived objects (copy, transformed) are used as operands (alias "
+            "writes) and queried after earlier queries (stale caches); a second pass with all arrays read-only pinpoints writes.",
+            NOTE, "explicit-state exploration with byte-level state snapshots (closure of the reachable state set) plus differential history checks on the real implementation", "DESIGN.md section 5, C12"),
     "C03": ("Every catalogue operation (about 130 entries: join/meet kinds, incidence, dist, angle, cross ratios, harmonic sets, constructions, "
             "predicates, transformations on every object kind, quadric contains / intersect / tangent / polar / dual / components, conic x conic, polytope "
             "contains / intersect / area / centroid / distances) x every argument position (every vertex of a polytope) x every scale factor of "
